@@ -217,7 +217,7 @@ class SetEncoder(encoder.SequenceEncoder):
                     raise error.PyAsn1Error('Component name "%s" not found in %r' % (namedType.name, value))
 
                 if namedType.isDefaulted and (
-                        component == namedType.asn1Object or
+                        encoder._equalsDefault(component, namedType.asn1Object) or
                         encodeFun(component, namedType.asn1Object, **options) ==
                         encodeFun(namedType.asn1Object, **options)):
                     continue
